@@ -327,6 +327,24 @@ def check_case(case):
                 plc3.close()
             finally:
                 harness.uninstall()
+    if case.get("variant") == "one-program" and pd["programs"]:
+        # the same request on a driver that did not upload anything at open (init_tags=False): get_tag_list is the first upload
+        from pycomm3.exceptions import PycommError
+        prog = pd["programs"][0]["name"]
+        p4, tgt4, plc4, d4 = upload(case, None, init_tags=False)
+        if plc4 is not None:
+            try:
+                try:
+                    tl = plc4.get_tag_list(program=prog)
+                    names = sorted(x["tag_name"] for x in tl)
+                    exp = sorted(expected_tags(p, [prog]))
+                    if names != exp or sorted(plc4.tags) != exp:
+                        discs.append(Disc("get_tag_list.program.first-upload", f"program {prog} on a driver opened with init_tags=False: {names[:6]} != {exp[:6]}"))
+                except PycommError as e:
+                    discs.append(Disc("get_tag_list.program.first-upload.raises", f"program {prog} on a driver opened with init_tags=False: {e!r} <- {e.__cause__!r}"[:400]))
+                plc4.close()
+            finally:
+                harness.uninstall()
     nt = "nested-or-bool" in cls and bool(cls & {"multi-page", "multi-fragment"})
     return discs, nt, sorted(cls)
 
